@@ -195,7 +195,7 @@ CLAIMED["C14"] = dict(
           "budgets (must end out-of-energy or identically). InstanceHandles.tla behaviours (entries, iterators, locks, stale handles, interrupts during which the instance state was or was not updated) are compiled to state "
           "host calls with an invoke at each interrupt; the harness plays the chain (re-entrant modification, v1::resume_receive with state_updated) and the invoke return codes, handle validity after the resume and the "
           "resulting persistent state are compared."),
-    note=("Not in the alphabet: signature verdicts (windows only), upgrade, policies, init functions, send (v0); interrupt responses are successes without return data. Out-of-window calls whose charge "
+    note=("Scripts run as receive functions and as init functions (receive-only calls must trap in init and vice versa). Not in the alphabet: signature verdicts (windows only), upgrade, policies, send (v0); interrupt responses are successes without return data. Out-of-window calls whose charge "
           "depends on the claimed length may end out-of-energy instead of trapping. Exact remaining energy is not compared (only per-call lower bounds and budget monotonicity). Call-depth limit not exercised."),
     ref="4 C14")
 
